@@ -50,6 +50,7 @@ type csScene struct {
 	data   [2][]byte
 	votes  sync.Map // cache of signed puppet votes (immutable)
 	prefix func(w *csWorld)
+	tag    string // distinguishes scenes of the same height in search names
 }
 
 type csWorld struct {
@@ -207,6 +208,26 @@ func newScene(height uint64) *csScene {
 	return sc
 }
 
+// handCutScene: the height-1 scene with B cut by hand into four parts, the second one EMPTY (a proposer signs only
+// {total, root} and may cut the bytes as it likes), under the header such a proposer would sign.
+func handCutScene() *csScene {
+	sc := newScene(1)
+	data := sc.data[blkB]
+	third := len(data) / 3
+	header, parts := handCut(data, []int{third, 0, third, len(data) - 2*third})
+	ps := types.NewPartSetFromHeader(header)
+	for _, p := range parts {
+		w, _ := wire(p)
+		if ok, err := ps.AddPart(w); !ok || err != nil {
+			vk.Fatalf("phase D: hand-cut part %d refused: %v", p.Index, err)
+		}
+	}
+	sc.parts[blkB] = ps
+	sc.ids[blkB] = types.BlockID{Hash: sc.ids[blkB].Hash, PartsHeader: header}
+	sc.tag = "hand-cut-B/"
+	return sc
+}
+
 // ---- pre-states and triggers ----------------------------------------------------------------------
 
 type csStep struct {
@@ -290,7 +311,11 @@ func csOps(sc *csScene) []csOp {
 		i := i
 		ops = append(ops, csOp{fmt.Sprintf("forged-B[%d]:byte-flipped", i), -1, func(sc *csScene) *types.Part {
 			p, _ := wire(sc.parts[blkB].GetPart(i))
-			p.Bytes[0] ^= 0xff
+			if len(p.Bytes) == 0 {
+				p.Bytes = []byte{0xff} // an empty part (hand-cut sets): the forgery carries a byte
+			} else {
+				p.Bytes[0] ^= 0xff
+			}
 			return p
 		}})
 	}
@@ -316,10 +341,26 @@ func panicKey(v interface{}) string {
 func (sc *csScene) checkHeld(w *csWorld, where string) (string, string) {
 	rs := w.n.CS.GetRoundState()
 	pb, pbp := rs.ProposalBlock, rs.ProposalBlockParts
+	const pre = "state-machine-reassembly:"
+	if pb == nil && pbp != nil && pbp.IsComplete() && pbp.Total() > 0 {
+		// a complete, verified set of one of the proposers' blocks, and no block: the store path (concatenation)
+		// decodes these parts, so the consensus path must have produced the block too
+		for b := 0; b < 2; b++ {
+			if !pbp.HasHeader(sc.parts[b].Header()) {
+				continue
+			}
+			var buf []byte
+			for i := 0; i < pbp.Total(); i++ {
+				buf = append(buf, pbp.GetPart(i).Bytes...)
+			}
+			if ser.DecodeBytes(buf, new(types.Block)) == nil {
+				return pre + "complete-set-but-no-block", fmt.Sprintf("%s: the part set of block %c is complete and its parts concatenate to a decodable block, but the node holds no ProposalBlock", where, 'A'+b)
+			}
+		}
+	}
 	if pb == nil || pbp == nil || !pbp.IsComplete() || pbp.Total() == 0 {
 		return "", ""
 	}
-	const pre = "state-machine-reassembly:"
 	raw, err := ioutil.ReadAll(pbp.GetReader())
 	if err != nil {
 		return pre + "part-set-unreadable", fmt.Sprintf("%s: %v", where, err)
@@ -421,7 +462,7 @@ func (s *csStats) add(k string) {
 func consensusSearch(r *vk.Run, sc *csScene, ps csStep, tg csTrigger, st *csStats) vk.Result {
 	ops := csOps(sc)
 	nB := sc.parts[blkB].Total()
-	name := fmt.Sprintf("h%d/%s/%s", sc.height, ps.name, tg.name)
+	name := fmt.Sprintf("h%d/%s%s/%s", sc.height, sc.tag, ps.name, tg.name)
 	spec := vk.Spec{
 		Name:            name,
 		NumOps:          len(ops),
@@ -511,10 +552,14 @@ func replayConsensus(r *vk.Run, search string, opIDs []int, rc interface{}) bool
 	}
 	for _, ps := range preStates() {
 		for _, tg := range triggers() {
-			if search != fmt.Sprintf("h%d/%s/%s", h, ps.name, tg.name) {
+			handCutB := search == fmt.Sprintf("h%d/hand-cut-B/%s/%s", h, ps.name, tg.name)
+			if !handCutB && search != fmt.Sprintf("h%d/%s/%s", h, ps.name, tg.name) {
 				continue
 			}
 			sc := newScene(h)
+			if handCutB {
+				sc = handCutScene()
+			}
 			ops := csOps(sc)
 			for _, oi := range opIDs {
 				if oi >= len(ops) {
@@ -549,6 +594,22 @@ func checkConsensusReassembly(r *vk.Run, heights []uint64) (states, trans, searc
 				trans += res.Transitions
 				searches++
 			}
+		}
+	}
+	// one hand-cut (non-uniform, with an empty part) set of B inside the state machine
+	hc := handCutScene()
+	for _, ps := range preStates() {
+		if ps.name != "no-proposal" && ps.name != "A-complete-prevoted" {
+			continue
+		}
+		for _, tg := range triggers() {
+			if tg.name == "polka-for-B" || r.Expired() {
+				continue
+			}
+			res := consensusSearch(r, hc, ps, tg, st)
+			states += res.States
+			trans += res.Transitions
+			searches++
 		}
 	}
 	return states, trans, searches, st.outcomes
